@@ -8,6 +8,7 @@ pub mod c04;
 pub mod c05;
 pub mod c06;
 pub mod c07;
+pub mod c08;
 pub mod c12;
 pub mod c13;
 pub mod c14;
@@ -16,6 +17,7 @@ pub mod c16;
 pub mod c17;
 pub mod c18;
 pub mod c19;
+pub mod c20;
 pub mod hard;
 pub mod mc;
 
@@ -28,6 +30,7 @@ pub fn run(ctx: &Ctx, prop: &str) -> bool {
         "C05" => c05::run(ctx),
         "C06" => c06::run(ctx),
         "C07" => c07::run(ctx),
+        "C08" => c08::run(ctx),
         "C12" => c12::run(ctx),
         "C13" => c13::run(ctx),
         "C14" => c14::run(ctx),
@@ -36,6 +39,7 @@ pub fn run(ctx: &Ctx, prop: &str) -> bool {
         "C17" => c17::run(ctx),
         "C18" => c18::run(ctx),
         "C19" => c19::run(ctx),
+        "C20" => c20::run(ctx),
         _ => return false,
     }
     true
@@ -50,6 +54,7 @@ pub fn replay(ctx: &Ctx, prop: &str, kind: &str, case: &Value) -> bool {
         "C05" => c05::replay(ctx, case),
         "C06" => c06::replay(ctx, case),
         "C07" => c07::replay(ctx, case),
+        "C08" => c08::replay(ctx, case),
         "C12" => c12::replay(ctx, case),
         "C13" => c13::replay(ctx, kind, case),
         "C14" => c14::replay(ctx, case),
@@ -58,6 +63,7 @@ pub fn replay(ctx: &Ctx, prop: &str, kind: &str, case: &Value) -> bool {
         "C17" => c17::replay(ctx, kind, case),
         "C18" => c18::replay(ctx, case),
         "C19" => c19::replay(ctx, case),
+        "C20" => c20::replay(ctx, case),
         _ => return false,
     }
     true
